@@ -170,7 +170,8 @@ def generate() -> dict:
     pl += ["end AiuVerif.Gen", ""]
     ch2 = write_if_changed(GEN / "Profiles.lean", "\n".join(pl))
     ch3 = generate_tables(sites)
-    return {"tables_changed": ch3, "sites": len(sites), "conditional_sites": sum(1 for s in sites if s["cond"]),
+    ch4 = generate_returns(sites)
+    return {"tables_changed": ch3, "returns_changed": ch4, "sites": len(sites), "conditional_sites": sum(1 for s in sites if s["cond"]),
             "profiles": {k: (None if v is None else len(v)) for k, v in profs.items()},
             "changed": [n for n, c in [("Sites.lean", ch1), ("Profiles.lean", ch2)] if c],
             "site_list": sites}
@@ -208,6 +209,73 @@ def live_registration(argv):
     finally:
         sys.argv = saved
         shutil.rmtree(tmp, ignore_errors=True)
+
+
+def return_shapes(sites):
+    """For every registered callback: the syntactic shapes of its `return` statements
+    ('event' = `[<first parameter>]`, 'empty' = `[]`, 'var', 'call', 'other') and whether the first
+    parameter is ever re-assigned.  A callback whose only shape is 'event' and that never re-assigns
+    its parameter hands every event it receives to the next stage, by construction."""
+    import inspect
+    import textwrap
+    sys.path.insert(0, str(repo_src().parent))
+    import aiu_trace_analyzer.pipeline as ep
+    out = []
+    seen = set()
+    for s in sites:
+        n = s["name"]
+        if n in seen:
+            continue
+        seen.add(n)
+        fn = getattr(ep, n, None)
+        if fn is None:
+            raise ShapeNotRecognised(f"callback {n} is not exported by aiu_trace_analyzer.pipeline")
+        f = ast.parse(textwrap.dedent(inspect.getsource(fn))).body[0]
+        if not isinstance(f, ast.FunctionDef) or not f.args.args:
+            raise ShapeNotRecognised(f"callback {n} is not a plain function with parameters")
+        param = f.args.args[0].arg
+        kinds = []
+
+        class V(ast.NodeVisitor):
+            def visit_FunctionDef(self, node):
+                if node is f:
+                    self.generic_visit(node)
+
+            def visit_Lambda(self, node):
+                pass
+
+            def visit_Return(self, node):
+                v = node.value
+                if isinstance(v, ast.List) and len(v.elts) == 1 and isinstance(v.elts[0], ast.Name) and v.elts[0].id == param:
+                    kinds.append("event")
+                elif isinstance(v, ast.List) and len(v.elts) == 0:
+                    kinds.append("empty")
+                elif isinstance(v, ast.Name):
+                    kinds.append("var")
+                elif isinstance(v, ast.Call):
+                    kinds.append("call")
+                else:
+                    kinds.append("other")
+        V().visit(f)
+        reassigned = any(
+            (isinstance(x, (ast.Assign,)) and any(isinstance(t, ast.Name) and t.id == param for t in x.targets)) or
+            (isinstance(x, (ast.AugAssign, ast.AnnAssign)) and isinstance(x.target, ast.Name) and x.target.id == param)
+            for x in ast.walk(f))
+        out.append((n, sorted(set(kinds)), reassigned))
+    return out
+
+
+def generate_returns(sites) -> bool:
+    rows = return_shapes(sites)
+    tl = ["/- GENERATED by harness/translate.py from the source of every registered stage callback",
+          "   (shapes of its return statements) of the current /repo tree. Do not edit. -/",
+          "namespace AiuVerif.Gen", "",
+          "/-- callback name, sorted set of return shapes, first parameter re-assigned? -/",
+          "def returns : List (String × List String × Bool) := ["]
+    tl.append(",\n".join(f"  ({lean_str(n)}, [{', '.join(lean_str(k) for k in ks)}], {'true' if r else 'false'})"
+                          for n, ks, r in rows))
+    tl += ["]", "", "end AiuVerif.Gen", ""]
+    return write_if_changed(GEN / "Returns.lean", "\n".join(tl))
 
 
 def generate_tables(sites) -> bool:
